@@ -25,6 +25,9 @@ CONSTANTS MaxN,        \* enumeration bound on the number of nodes
           Modes,       \* subset of {"walk", "walkabout"} for the enumeration
           Histories,   \* subset of {"fresh", "rewalk", "lateadd"}
           NestedMaxPruned, \* with an inner traversal: at most that many nodes of the outer tree raise a pruning exception
+          Edits,       \* {"none"} | {"drop"}: does the visit_* method of one node remove one of that node's own children from the tree
+                       \* (walk(): "this tree traversal supports limited in-place tree modifications": the children of a node are
+                       \* looked up AFTER the node has been entered, so what its visit_* method removes is not traversed)
           Nestings     \* {"none"} | {"nested"}: does a visit_* / depart_* method of the main visitor start a traversal of its own
                        \* (of a detached one-node tree, node n + 1) with the SAME visitor object - a re-entrant walk
 
@@ -43,8 +46,10 @@ RegOrder == <<"B", "B2", "A", "I", "O">>    \* registration order inside one `wh
 \* configurations recorded from the real code: [n, parent (seq), prune (seq), exts (seq), mode]
 FileCfgs == IF Source = "file" THEN JsonDeserialize(IOEnv.CFG_FILE) ELSE <<>>
 
-VARIABLES cid, n, parent, prune, exts, mode, hist, nest, stack, exc, events, status
-vars == <<cid, n, parent, prune, exts, mode, hist, nest, stack, exc, events, status>>
+VARIABLES cid, n, parent, prune, exts, mode, hist, nest, edit, stack, exc, events, status
+vars == <<cid, n, parent, prune, exts, mode, hist, nest, edit, stack, exc, events, status>>
+\* edit = [at: the node whose visit_* removes a child (0: none), drop: that child]
+NoEdit == [at |-> 0, drop |-> 0]
 
 \* nest = [at: the node whose visit_* / depart_* method starts the inner traversal (0: none), when: "visit" | "depart",
 \*         how: "walk" | "walkabout", prune: what visit_* raises for the detached root]
@@ -58,7 +63,8 @@ PostV == Sel("AFTER")  \o Sel("INNER")      \* Visitor.visit : after_visit + inn
 PreD  == Sel("BEFORE") \o Sel("INNER")      \* Visitor.depart: before_visit + inner_visit
 PostD == Sel("AFTER")  \o Sel("OUTTER")     \* Visitor.depart: after_visit + outter_visit
 
-Kids(p) == SelectSeq([i \in 1..n |-> i], LAMBDA i : i > 1 /\ parent[i] = p)
+\* (the children of a node are only asked for after its visit_*, so the removal needs no state of its own)
+Kids(p) == SelectSeq([i \in 1..n |-> i], LAMBDA i : i > 1 /\ parent[i] = p /\ ~(p = edit.at /\ i = edit.drop))
 
 \* mode: the traversal this frame belongs to is a walk or a walkabout; nroot: the frame is the root of an inner traversal
 Frame(node, md, nr) == [node |-> node, ph |-> "Vpre", k |-> 1, callDepart |-> TRUE, skipNode |-> FALSE, pruning |-> "none",
@@ -84,6 +90,9 @@ InitEnum == /\ Source = "enum" /\ cid = 0
             /\ nest \in (IF "nested" \in Nestings
                            THEN [at : 1..n, when : {"visit", "depart"}, how : {"walk", "walkabout"}, prune : NestedPrunes]
                            ELSE {NoNest})
+            /\ edit \in (IF "drop" \in Edits THEN {[at |-> parent[c], drop |-> c] : c \in 2..n} ELSE {NoEdit})
+            /\ (edit.at # 0 => /\ hist = "fresh" /\ nest.at = 0 /\ \A i \in 1..n : prune[i] \notin SpecialDepartures
+                               /\ exts \in {{}, {"B", "A", "I", "O"}})
             /\ (nest.at # 0 => /\ hist = "fresh" /\ \A i \in 1..n : prune[i] \notin SpecialDepartures
                                /\ (nest.when = "depart" => mode = "walkabout")
                                /\ Cardinality({i \in 1..n : prune[i] # "none"}) <= NestedMaxPruned
@@ -97,6 +106,7 @@ InitFile == /\ Source = "file"
             /\ mode = FileCfgs[cid].mode
             /\ hist = "fresh"
             /\ nest = NoNest
+            /\ edit = NoEdit
 Init == /\ (InitEnum \/ InitFile)
         /\ stack = <<Frame(1, mode, FALSE)>>
         /\ exc = "none"
@@ -196,7 +206,7 @@ Finish == /\ status = "running" /\ exc = "none" /\ Len(stack) = 0
 
 Next == /\ (VisitPre \/ VisitMain \/ VisitPostExt \/ RaiseAbout \/ RaiseWalk \/ KidsStep \/ CatchSiblings
             \/ SwallowAtRoot \/ DepartPre \/ DepartMain \/ DepartPost \/ Finish)
-        /\ UNCHANGED <<cid, n, parent, prune, exts, mode, hist, nest>>
+        /\ UNCHANGED <<cid, n, parent, prune, exts, mode, hist, nest, edit>>
 Spec == Init /\ [][Next]_vars
 
 \* ------------------------------------------------------------------ the contract (property C19)
@@ -246,6 +256,7 @@ Elder(x) == {y \in 2..n : parent[y] = parent[x] /\ y < x}
 RECURSIVE Visited(_)
 Visited(x) == IF x = 1 THEN TRUE
               ELSE /\ Visited(parent[x])
+                   /\ x # edit.drop                          \* removed by the visit_* of its parent before the children were looked up
                    /\ prune[parent[x]] \notin {"SkipChildren", "SkipNode"}
                    /\ \A s \in Elder(x) : ~(Visited(s) /\ prune[s] \in {"SkipSiblings", "DepartSkipSiblings", "SkipSiblingsDepartError"})
 PruningMeans == Completed => \A x \in 1..n : Seen("main", "visit", x) <=> Visited(x)
@@ -269,7 +280,7 @@ Contract == ErrorsSurface /\ (status = "failed" \/
             /\ WellNested /\ DocumentedOrder /\ SameNodesForAll /\ PruningMeans /\ NestedContract)
 
 \* ------------------------------------------------------------------ emission (spec -> code)
-Cfg == [cid |-> cid, n |-> n, parent |-> parent, prune |-> prune, mode |-> mode, hist |-> hist, nest |-> nest,
+Cfg == [cid |-> cid, n |-> n, parent |-> parent, prune |-> prune, mode |-> mode, hist |-> hist, nest |-> nest, edit |-> edit,
         exts |-> Sel("BEFORE") \o Sel("AFTER") \o Sel("INNER") \o Sel("OUTTER")]
 EmitTerminal == Terminal => PrintT(ToJson([cfg |-> Cfg, status |-> status, events |-> events, contract |-> Contract]))
 =============================================================================
